@@ -15,28 +15,28 @@ import (
 	"github.com/mdlayher/ndp"
 )
 
-func sysIPToks(t *vfh.Toks, a system.IP) {
+func vfSysIPToks(t *vfh.Toks, a system.IP) {
 	t.Prefix(a.Address).B(a.Deprecated).B(a.ManageTemporaryAddresses).B(a.StablePrivacy).
 		B(a.Temporary).B(a.Tentative).B(a.ValidForever)
 }
 
-func mp(s string) netip.Prefix { return netip.MustParsePrefix(s) }
+func vfMp(s string) netip.Prefix { return netip.MustParsePrefix(s) }
 
-type flags struct{ dep, mng, stab, tmp, tent, forever bool }
+type vfFlags struct{ dep, mng, stab, tmp, tent, forever bool }
 
-func mkIP(p string, f flags) system.IP {
-	return system.IP{Address: mp(p), Deprecated: f.dep, ManageTemporaryAddresses: f.mng,
+func vfMkIP(p string, f vfFlags) system.IP {
+	return system.IP{Address: vfMp(p), Deprecated: f.dep, ManageTemporaryAddresses: f.mng,
 		StablePrivacy: f.stab, Temporary: f.tmp, Tentative: f.tent, ValidForever: f.forever}
 }
 
-func randFlags(r *vfh.Rand) flags {
+func vfRandFlags(r *vfh.Rand) vfFlags {
 	// each flag set with probability 1/4 so that most addresses stay eligible
-	return flags{r.Chance(1, 4), r.Chance(1, 4), r.Chance(1, 4), r.Chance(1, 5), r.Chance(1, 5), r.Chance(1, 4)}
+	return vfFlags{r.Chance(1, 4), r.Chance(1, 4), r.Chance(1, 4), r.Chance(1, 5), r.Chance(1, 5), r.Chance(1, 4)}
 }
 
 // randAddr draws an interface address from a handful of networks so that collisions,
 // shared /64s and every address class occur often.
-func randAddr(r *vfh.Rand) netip.Prefix {
+func vfRandAddr(r *vfh.Rand) netip.Prefix {
 	his := []uint64{0xfd00_0000_0000_0001, 0xfd00_0000_0000_0002, 0xfdaa_bbcc_0000_0001,
 		0x2001_0db8_0000_0001, 0x2001_0db8_0000_0002, 0x2600_1234_0000_0000,
 		0xfe80_0000_0000_0000, 0xfe80_0000_0000_0000, 0x0000_0000_0000_0000, 0xff02_0000_0000_0000, 0xfc00_0000_0000_0000}
@@ -73,7 +73,7 @@ func randAddr(r *vfh.Rand) netip.Prefix {
 }
 
 // tuples enumerates every sequence of length 0..k over indices 0..m-1.
-func tuples(m, k int, fn func(idx []int)) {
+func vfTuples(m, k int, fn func(idx []int)) {
 	var rec func(cur []int)
 	rec = func(cur []int) {
 		fn(cur)
@@ -91,22 +91,22 @@ func tuples(m, k int, fn func(idx []int)) {
 // C13
 
 func c13Pool() []system.IP {
-	none := flags{}
+	none := vfFlags{}
 	return []system.IP{
-		mkIP("fd00:0:0:1::1/64", none),
-		mkIP("fd00:0:0:1::2/64", flags{stab: true}), // second host in the same /64
-		mkIP("fd00:0:0:2::1/64", flags{dep: true}),  // deprecated is NOT an exclusion for prefixes
-		mkIP("2001:db8:0:1::1/64", none),
-		mkIP("2001:db8:0:1:211:22ff:fe33:4455/64", flags{mng: true}),
-		mkIP("2001:db8:0:2::1/64", flags{tmp: true}),
-		mkIP("2001:db8:0:3::1/64", flags{tent: true}),
-		mkIP("2001:db8:0:1::9/64", flags{tmp: true}), // temporary host in an otherwise eligible /64
-		mkIP("2001:db8:5::1/48", none),
-		mkIP("2001:db8:0:1::7/128", none),
-		mkIP("fe80::1/64", flags{forever: true}),
-		mkIP("10.0.0.1/24", none),
-		mkIP("1::1/64", none), // sorts before everything else
-		mkIP("fd00:0:0:1::/64", none),
+		vfMkIP("fd00:0:0:1::1/64", none),
+		vfMkIP("fd00:0:0:1::2/64", vfFlags{stab: true}), // second host in the same /64
+		vfMkIP("fd00:0:0:2::1/64", vfFlags{dep: true}),  // deprecated is NOT an exclusion for prefixes
+		vfMkIP("2001:db8:0:1::1/64", none),
+		vfMkIP("2001:db8:0:1:211:22ff:fe33:4455/64", vfFlags{mng: true}),
+		vfMkIP("2001:db8:0:2::1/64", vfFlags{tmp: true}),
+		vfMkIP("2001:db8:0:3::1/64", vfFlags{tent: true}),
+		vfMkIP("2001:db8:0:1::9/64", vfFlags{tmp: true}), // temporary host in an otherwise eligible /64
+		vfMkIP("2001:db8:5::1/48", none),
+		vfMkIP("2001:db8:0:1::7/128", none),
+		vfMkIP("fe80::1/64", vfFlags{forever: true}),
+		vfMkIP("10.0.0.1/24", none),
+		vfMkIP("1::1/64", none), // sorts before everything else
+		vfMkIP("fd00:0:0:1::/64", none),
 	}
 }
 
@@ -160,7 +160,7 @@ func verifPrepared(t *testing.T, out *vfh.Out, prop string) {
 // options for the very networks the wildcard will expand to — same base address with the same and
 // with a shorter length, as a Prefix Information, a Route Information and an RDNSS option.  What a
 // wildcard appends must not depend on it.
-func wildPre(k int, cands []netip.Prefix) []ndp.Option {
+func vfWildPre(k int, cands []netip.Prefix) []ndp.Option {
 	if k%5 >= 2 || len(cands) == 0 {
 		return nil
 	}
@@ -187,7 +187,7 @@ func wildPre(k int, cands []netip.Prefix) []ndp.Option {
 }
 
 // wildOwn returns the options the plugin appended, after checking that it left alone what was there.
-func wildOwn(t *testing.T, ra *ndp.RouterAdvertisement, pre []ndp.Option) []ndp.Option {
+func vfWildOwn(t *testing.T, ra *ndp.RouterAdvertisement, pre []ndp.Option) []ndp.Option {
 	if len(ra.Options) < len(pre) {
 		t.Fatalf("Apply removed options that were in the RA before it ran (%d < %d)", len(ra.Options), len(pre))
 	}
@@ -202,7 +202,7 @@ func wildOwn(t *testing.T, ra *ndp.RouterAdvertisement, pre []ndp.Option) []ndp.
 // wildClock: the clock of the deprecated wildcard stanzas.  Every reading within one Apply is a step
 // later than the one before (as a real clock's are): "all with the stanza's flags and lifetimes"
 // means that ONE reading decides the lifetimes of all the options a stanza expands to.
-type wildClockT struct {
+type vfWildClockT struct {
 	first time.Time
 	step  time.Duration
 	reads int
@@ -210,18 +210,18 @@ type wildClockT struct {
 
 var (
 	wildEpoch = time.Unix(1700000000, 0)
-	wildClock wildClockT
+	wildClock vfWildClockT
 	// wildSourceFails: the operating system's address / route dump fails for the long-lived plugins
 	wildSourceFails bool
 )
 
-func wildNow() time.Time {
+func vfWildNow() time.Time {
 	t := wildClock.first.Add(time.Duration(wildClock.reads) * wildClock.step)
 	wildClock.reads++
 	return t
 }
 
-func remainingAt(life time.Duration, j int) time.Duration {
+func vfRemainingAt(life time.Duration, j int) time.Duration {
 	d := wildEpoch.Add(life).Sub(wildClock.first.Add(time.Duration(j) * wildClock.step))
 	if d < 0 {
 		return 0
@@ -237,7 +237,7 @@ var (
 )
 
 func c13Run(t *testing.T, out *vfh.Out, bits int, k int, as []system.IP) {
-	stanza := mp("::/64")
+	stanza := vfMp("::/64")
 	if bits != 64 {
 		stanza = netip.PrefixFrom(netip.IPv6Unspecified(), bits)
 	}
@@ -254,8 +254,8 @@ func c13Run(t *testing.T, out *vfh.Out, bits int, k int, as []system.IP) {
 	dep := k%7 == 3 && vfPrepareIfi == nil
 	cfgValid, cfgPref := valid, pref
 	if dep {
-		wildClock = wildClockT{first: wildEpoch.Add(time.Duration(300+(k%11)*450) * time.Millisecond), step: 400 * time.Millisecond}
-		valid, pref = remainingAt(cfgValid, 0), remainingAt(cfgPref, 0)
+		wildClock = vfWildClockT{first: wildEpoch.Add(time.Duration(300+(k%11)*450) * time.Millisecond), step: 400 * time.Millisecond}
+		valid, pref = vfRemainingAt(cfgValid, 0), vfRemainingAt(cfgPref, 0)
 	}
 	p, ok := c13Plugins[key]
 	if !ok || vfPrepareIfi != nil {
@@ -275,7 +275,7 @@ func c13Run(t *testing.T, out *vfh.Out, bits int, k int, as []system.IP) {
 			p.Addrs = addrs
 		}
 		if dep {
-			p.Deprecated, p.Epoch, p.TimeNow = true, wildEpoch, wildNow
+			p.Deprecated, p.Epoch, p.TimeNow = true, wildEpoch, vfWildNow
 		}
 		c13Plugins[key] = p
 	}
@@ -301,20 +301,20 @@ func c13Run(t *testing.T, out *vfh.Out, bits int, k int, as []system.IP) {
 	}
 	c := new(vfh.Toks).S("wp").N(bits).B(onLink).B(auto).I(int64(valid)).I(int64(pref)).N(len(as))
 	for _, a := range as {
-		sysIPToks(c, a)
+		vfSysIPToks(c, a)
 	}
 	var cands []netip.Prefix
 	for _, a := range as {
 		cands = append(cands, a.Address)
 	}
-	pre := wildPre(k, cands)
+	pre := vfWildPre(k, cands)
 	ra := &ndp.RouterAdvertisement{Options: append([]ndp.Option(nil), pre...)}
 	out.Try(c.String(), func() string {
 		impl := new(vfh.Toks)
 		if err := p.Apply(ra); err != nil {
 			impl.S("err")
 		} else {
-			own := wildOwn(t, ra, pre)
+			own := vfWildOwn(t, ra, pre)
 			impl.N(len(own))
 			// a deprecated stanza: whichever single reading j of this Apply decided the lifetimes of
 			// ALL its options is reported as the first one (reading the clock once, early or late, is
@@ -325,7 +325,7 @@ func c13Run(t *testing.T, out *vfh.Out, bits int, k int, as []system.IP) {
 					all := true
 					for _, o := range own {
 						pi, ok := o.(*ndp.PrefixInformation)
-						if !ok || pi.ValidLifetime != remainingAt(cfgValid, j) || pi.PreferredLifetime != remainingAt(cfgPref, j) {
+						if !ok || pi.ValidLifetime != vfRemainingAt(cfgValid, j) || pi.PreferredLifetime != vfRemainingAt(cfgPref, j) {
 							all = false
 						}
 					}
@@ -358,14 +358,14 @@ func verifC13(t *testing.T, r *vfh.Rand, out *vfh.Out) {
 		k = 4
 	}
 	tcnt := 0
-	tuples(len(pool), k, func(idx []int) {
+	vfTuples(len(pool), k, func(idx []int) {
 		as := make([]system.IP, len(idx))
 		for i, j := range idx {
 			as[i] = pool[j]
 		}
 		c13Run(t, out, 64, tcnt, as)
 		if tcnt%3 == 0 { // the same addresses again, flags changed
-			c13Run(t, out, 64, tcnt, flipFlags(as, tcnt))
+			c13Run(t, out, 64, tcnt, vfFlipFlags(as, tcnt))
 		}
 		tcnt++
 	})
@@ -377,8 +377,8 @@ func verifC13(t *testing.T, r *vfh.Rand, out *vfh.Out) {
 		}
 		as := make([]system.IP, ln)
 		for j := range as {
-			as[j] = system.IP{Address: randAddr(r)}
-			f := randFlags(r)
+			as[j] = system.IP{Address: vfRandAddr(r)}
+			f := vfRandFlags(r)
 			as[j].Deprecated, as[j].ManageTemporaryAddresses, as[j].StablePrivacy = f.dep, f.mng, f.stab
 			as[j].Temporary, as[j].Tentative, as[j].ValidForever = f.tmp, f.tent, f.forever
 		}
@@ -390,11 +390,11 @@ func verifC13(t *testing.T, r *vfh.Rand, out *vfh.Out) {
 		}
 		c13Run(t, out, 64, i, as)
 		if i%3 == 0 && len(as) > 0 {
-			c13Run(t, out, 64, i, flipFlags(as, i))
+			c13Run(t, out, 64, i, vfFlipFlags(as, i))
 		}
 	}
 	// a failing address source fails RA generation
-	p := &Prefix{Auto: true, Prefix: mp("::/64"), Addrs: func() ([]system.IP, error) { return nil, errors.New("boom") }}
+	p := &Prefix{Auto: true, Prefix: vfMp("::/64"), Addrs: func() ([]system.IP, error) { return nil, errors.New("boom") }}
 	ra := &ndp.RouterAdvertisement{}
 	impl := "ok"
 	if err := p.Apply(ra); err != nil {
@@ -407,28 +407,28 @@ func verifC13(t *testing.T, r *vfh.Rand, out *vfh.Out) {
 // C14
 
 func c14Pool() []system.IP {
-	none := flags{}
+	none := vfFlags{}
 	return []system.IP{
-		mkIP("fd00::5/64", none),                            // ULA
-		mkIP("fd00::3/64", none),                            // ULA, lower
-		mkIP("fd00::9/64", flags{forever: true}),            // ULA stable
-		mkIP("fd00::211:22ff:fe33:4455/64", none),           // ULA EUI-64 (stable by pattern)
-		mkIP("fd00::1/64", flags{dep: true}),                // ULA deprecated (excluded)
-		mkIP("2001:db8::5/64", none),                        // GUA
-		mkIP("2001:db8::2/64", flags{stab: true}),           // GUA stable-privacy
-		mkIP("2001:db8::1/64", flags{tmp: true}),            // GUA temporary (excluded)
-		mkIP("2001:db8::8/64", flags{mng: true}),            // GUA manage-temp
-		mkIP("2600::1/64", flags{tent: true}),               // GUA tentative (excluded)
-		mkIP("fe80::5/64", none),                            // LLA
-		mkIP("fe80::211:22ff:fe33:4455/64", none),           // LLA EUI-64
-		mkIP("fe80::1/64", flags{forever: true, dep: true}), // LLA stable but deprecated
-		mkIP("::1/128", none),                               // loopback: none of the classes
-		mkIP("ff02::1/128", flags{forever: true}),           // multicast, stable flag
-		mkIP("10.0.0.1/24", flags{forever: true}),           // IPv4 (excluded)
-		mkIP("2001:db8::5/128", flags{stab: true}),          // same address as above, other mask and flags
-		mkIP("fc00::1/7", none),                             // ULA, lowest
-		mkIP("fd00::211:22ff:ee33:4455/64", none),           // ff without fe: not EUI-64
-		mkIP("fd00::211:2200:fe33:4455/64", none),           // fe without ff: not EUI-64
+		vfMkIP("fd00::5/64", none),                            // ULA
+		vfMkIP("fd00::3/64", none),                            // ULA, lower
+		vfMkIP("fd00::9/64", vfFlags{forever: true}),            // ULA stable
+		vfMkIP("fd00::211:22ff:fe33:4455/64", none),           // ULA EUI-64 (stable by pattern)
+		vfMkIP("fd00::1/64", vfFlags{dep: true}),                // ULA deprecated (excluded)
+		vfMkIP("2001:db8::5/64", none),                        // GUA
+		vfMkIP("2001:db8::2/64", vfFlags{stab: true}),           // GUA stable-privacy
+		vfMkIP("2001:db8::1/64", vfFlags{tmp: true}),            // GUA temporary (excluded)
+		vfMkIP("2001:db8::8/64", vfFlags{mng: true}),            // GUA manage-temp
+		vfMkIP("2600::1/64", vfFlags{tent: true}),               // GUA tentative (excluded)
+		vfMkIP("fe80::5/64", none),                            // LLA
+		vfMkIP("fe80::211:22ff:fe33:4455/64", none),           // LLA EUI-64
+		vfMkIP("fe80::1/64", vfFlags{forever: true, dep: true}), // LLA stable but deprecated
+		vfMkIP("::1/128", none),                               // loopback: none of the classes
+		vfMkIP("ff02::1/128", vfFlags{forever: true}),           // multicast, stable flag
+		vfMkIP("10.0.0.1/24", vfFlags{forever: true}),           // IPv4 (excluded)
+		vfMkIP("2001:db8::5/128", vfFlags{stab: true}),          // same address as above, other mask and flags
+		vfMkIP("fc00::1/7", none),                             // ULA, lowest
+		vfMkIP("fd00::211:22ff:ee33:4455/64", none),           // ff without fe: not EUI-64
+		vfMkIP("fd00::211:2200:fe33:4455/64", none),           // fe without ff: not EUI-64
 	}
 }
 
@@ -439,7 +439,7 @@ var (
 
 // flipFlags: the same addresses in the same order, the kernel's flags changed (duplicate address
 // detection finishing, a lifetime running out): tentative / deprecated / temporary toggled on some.
-func flipFlags(as []system.IP, k int) []system.IP {
+func vfFlipFlags(as []system.IP, k int) []system.IP {
 	out := append([]system.IP(nil), as...)
 	for i := range out {
 		switch (k + i) % 4 {
@@ -502,7 +502,7 @@ func c14Run(t *testing.T, out *vfh.Out, static []netip.Addr, as []system.IP) {
 	}
 	c.N(len(as))
 	for _, a := range as {
-		sysIPToks(c, a)
+		vfSysIPToks(c, a)
 	}
 	// the option is built three times from the same plugin: every build must be the same
 	var cands []netip.Prefix
@@ -510,13 +510,13 @@ func c14Run(t *testing.T, out *vfh.Out, static []netip.Addr, as []system.IP) {
 		cands = append(cands, a.Address)
 	}
 	for build := 0; build < 3; build++ {
-		pre := wildPre(len(as)+len(static)+build, cands)
+		pre := vfWildPre(len(as)+len(static)+build, cands)
 		ra := &ndp.RouterAdvertisement{Options: append([]ndp.Option(nil), pre...)}
 		impl := new(vfh.Toks)
 		if err := rd.Apply(ra); err != nil {
 			impl.S("err")
 		} else {
-			own := wildOwn(t, ra, pre)
+			own := vfWildOwn(t, ra, pre)
 			if len(own) != 1 {
 				t.Fatalf("RDNSS.Apply produced %d options", len(own))
 			}
@@ -551,14 +551,14 @@ func verifC14(t *testing.T, r *vfh.Rand, out *vfh.Out) {
 		k = 4
 	}
 	cnt := 0
-	tuples(len(pool), k, func(idx []int) {
+	vfTuples(len(pool), k, func(idx []int) {
 		as := make([]system.IP, len(idx))
 		for i, j := range idx {
 			as[i] = pool[j]
 		}
 		c14Run(t, out, statics[cnt%len(statics)], as)
 		if cnt%3 == 0 { // the same addresses again, flags changed
-			c14Run(t, out, statics[cnt%len(statics)], flipFlags(as, cnt))
+			c14Run(t, out, statics[cnt%len(statics)], vfFlipFlags(as, cnt))
 		}
 		cnt++
 	})
@@ -570,8 +570,8 @@ func verifC14(t *testing.T, r *vfh.Rand, out *vfh.Out) {
 		}
 		as := make([]system.IP, ln)
 		for j := range as {
-			as[j] = system.IP{Address: randAddr(r)}
-			f := randFlags(r)
+			as[j] = system.IP{Address: vfRandAddr(r)}
+			f := vfRandFlags(r)
 			as[j].Deprecated, as[j].ManageTemporaryAddresses, as[j].StablePrivacy = f.dep, f.mng, f.stab
 			as[j].Temporary, as[j].Tentative, as[j].ValidForever = f.tmp, f.tent, f.forever
 		}
@@ -595,18 +595,18 @@ func verifC14(t *testing.T, r *vfh.Rand, out *vfh.Out) {
 
 func c15Pool() []netip.Prefix {
 	return []netip.Prefix{
-		mp("2001:db8::/32"), mp("2001:db8::/48"), mp("2001:db8::/64"), mp("2001:db8:0:1::/64"),
-		mp("2001:db8:1::/48"), mp("2001:db8:1:2::/64"), mp("fd00::/8"), mp("fd00:1::/32"),
-		mp("::/0"), mp("2001:db8::1/128"), mp("10.0.0.0/8"), mp("fe80::/64"),
+		vfMp("2001:db8::/32"), vfMp("2001:db8::/48"), vfMp("2001:db8::/64"), vfMp("2001:db8:0:1::/64"),
+		vfMp("2001:db8:1::/48"), vfMp("2001:db8:1:2::/64"), vfMp("fd00::/8"), vfMp("fd00:1::/32"),
+		vfMp("::/0"), vfMp("2001:db8::1/128"), vfMp("10.0.0.0/8"), vfMp("fe80::/64"),
 	}
 }
 
-func randRoute(r *vfh.Rand) netip.Prefix {
+func vfRandRoute(r *vfh.Rand) netip.Prefix {
 	if r.Chance(1, 15) {
 		return netip.PrefixFrom(vfh.Addr4(uint32(r.Intn(4))<<24), 8)
 	}
 	if r.Chance(1, 40) {
-		return mp("::/0")
+		return vfMp("::/0")
 	}
 	his := []uint64{0x2001_0db8_0000_0000, 0x2001_0db8_0001_0000, 0xfd00_0000_0000_0000, 0x2600_0000_0000_0000}
 	hi := vfh.Pick(r, his) | uint64(r.Intn(3))<<uint(16*r.Intn(3))
@@ -629,8 +629,8 @@ func c15Run(t *testing.T, out *vfh.Out, k int, rs []netip.Prefix) {
 	dep := k%9 == 4 && vfPrepareIfi == nil
 	cfgLt := lt
 	if dep {
-		wildClock = wildClockT{first: wildEpoch.Add(time.Duration(10300+(k%13)*450) * time.Millisecond), step: 400 * time.Millisecond}
-		lt = remainingAt(cfgLt, 0)
+		wildClock = vfWildClockT{first: wildEpoch.Add(time.Duration(10300+(k%13)*450) * time.Millisecond), step: 400 * time.Millisecond}
+		lt = vfRemainingAt(cfgLt, 0)
 	}
 	c := new(vfh.Toks).S("wr").N(int(pref)).I(int64(lt)).N(len(rs))
 	for i, p := range rs {
@@ -643,7 +643,7 @@ func c15Run(t *testing.T, out *vfh.Out, k int, rs []netip.Prefix) {
 	c15Cur = routes
 	rt, ok := c15Plugins[k%9]
 	if !ok || vfPrepareIfi != nil {
-		rt = &Route{Auto: true, Prefix: mp("::/0"), Preference: pref, Lifetime: cfgLt,
+		rt = &Route{Auto: true, Prefix: vfMp("::/0"), Preference: pref, Lifetime: cfgLt,
 			Routes: func() ([]system.Route, error) {
 				if wildSourceFails {
 					return nil, errors.New("verif: the route dump failed")
@@ -656,7 +656,7 @@ func c15Run(t *testing.T, out *vfh.Out, k int, rs []netip.Prefix) {
 			rt.Routes = routes
 		}
 		if dep {
-			rt.Deprecated, rt.Epoch, rt.TimeNow = true, wildEpoch, wildNow
+			rt.Deprecated, rt.Epoch, rt.TimeNow = true, wildEpoch, vfWildNow
 		}
 		c15Plugins[k%9] = rt
 	}
@@ -678,14 +678,14 @@ func c15Run(t *testing.T, out *vfh.Out, k int, rs []netip.Prefix) {
 			t.Fatalf("Route.Prepare: %v", err)
 		}
 	}
-	pre := wildPre(k, rs)
+	pre := vfWildPre(k, rs)
 	ra := &ndp.RouterAdvertisement{Options: append([]ndp.Option(nil), pre...)}
 	out.Try(c.String(), func() string {
 		impl := new(vfh.Toks)
 		if err := rt.Apply(ra); err != nil {
 			impl.S("err")
 		} else {
-			own := wildOwn(t, ra, pre)
+			own := vfWildOwn(t, ra, pre)
 			impl.N(len(own))
 			norm := -1
 			if dep && len(own) > 0 {
@@ -693,7 +693,7 @@ func c15Run(t *testing.T, out *vfh.Out, k int, rs []netip.Prefix) {
 					all := true
 					for _, o := range own {
 						ri, ok := o.(*ndp.RouteInformation)
-						if !ok || ri.RouteLifetime != remainingAt(cfgLt, j) {
+						if !ok || ri.RouteLifetime != vfRemainingAt(cfgLt, j) {
 							all = false
 						}
 					}
@@ -726,7 +726,7 @@ func verifC15(t *testing.T, r *vfh.Rand, out *vfh.Out) {
 		k = 4
 	}
 	tcnt := 0
-	tuples(len(pool), k, func(idx []int) {
+	vfTuples(len(pool), k, func(idx []int) {
 		rs := make([]netip.Prefix, len(idx))
 		for i, j := range idx {
 			rs[i] = pool[j]
@@ -742,14 +742,14 @@ func verifC15(t *testing.T, r *vfh.Rand, out *vfh.Out) {
 		}
 		rs := make([]netip.Prefix, ln)
 		for j := range rs {
-			rs[j] = randRoute(r)
+			rs[j] = vfRandRoute(r)
 			if j > 0 && r.Chance(1, 6) {
 				rs[j] = rs[r.Intn(j)]
 			}
 		}
 		c15Run(t, out, i, rs)
 	}
-	rt := &Route{Auto: true, Prefix: mp("::/0"), Routes: func() ([]system.Route, error) { return nil, errors.New("boom") }}
+	rt := &Route{Auto: true, Prefix: vfMp("::/0"), Routes: func() ([]system.Route, error) { return nil, errors.New("boom") }}
 	impl := "ok"
 	if err := rt.Apply(&ndp.RouterAdvertisement{}); err != nil {
 		impl = "err"
